@@ -1,5 +1,6 @@
 import PyPhysim.Proofs.C10Inv
 import PyPhysim.Generated.C10Effects
+import PyPhysim.Model.C10Toy
 /-!
 # C10 — the effect of the cache machine's `step` on the eight attributes, as a finite table
 
@@ -381,6 +382,51 @@ theorem step_clears (O : Ops μ ρ) (K : Nat) (st : State μ ρ) (op : Op μ ρ)
   | readFullW => simp [Op.kind, effect] at hx
 
 end Sound
+
+/-! ## the table is tight: every listed write happens on some concrete state -/
+section Tight
+
+/-- states of the exact `1 × 1` rational interpretation `toyOps` (`Model/C10Toy.lean`) -/
+abbrev TSt := State (List Rat) Rat
+
+def Fld.same (x : Fld) (a b : TSt) : Bool :=
+  match x with
+  | .ns => a.ns == b.ns | .pow => a.p == b.p | .prec => a.f == b.f | .fullF => a.fullF == b.fullF
+  | .w => a.w == b.w | .wH => a.wH == b.wH | .fullWH => a.fullWH == b.fullWH | .fullW => a.fullW == b.fullW
+
+/-- the fields in which two states differ -/
+def changed (a b : TSt) : List Fld := Fld.all.filter fun x => !x.same a b
+
+/-- two users with direct channels `2` and `4` -/
+def toyProbe : Ops (List Rat) Rat := toyOps [2, 4]
+
+/-- precoders and filters set, nothing read yet -/
+def probeFresh : TSt :=
+  (run Cfg.fixed toyProbe 2 (State.init _ _)
+    [.randomizeF [3, -2] (.int 1) (.scalar 4), .setFilters none (some [1, 1])]).1
+
+/-- the same solver after `full_W` was read (all eight attributes hold a value) -/
+def probeFull : TSt := (run Cfg.fixed toyProbe 2 probeFresh [.readFullW]).1
+
+/-- one concrete (state, operation) per operation kind that writes or fills something -/
+def probes : List (TSt × Op (List Rat) Rat) :=
+  [(probeFull, .setP (.scalar 9)),
+   (probeFull, .randomizeF [-1, 5] (.list [2, 2]) (.scalar 9)),
+   ({ probeFull with ns := some [3, 3] }, .setPrecoders (some [-1, -1]) (some [7, 7]) (some [9, 9])),
+   (probeFull, .setFilters (some [5, 5]) none),
+   (probeFull, .solve false (.list [3, 3]) (.scalar 9) ⟨[-1, 1], some [8, 8], [6, 6], true, [2, 2]⟩),
+   (probeFull, .clear),
+   (probeFresh, .readFullF),
+   ((run Cfg.fixed toyProbe 2 (State.init _ _) [.setFilters (some [1, 1]) none]).1, .readW),
+   (probeFresh, .readWH), (probeFresh, .readFullWH), (probeFresh, .readFullW)]
+
+/-- every field the table lists for an operation is really changed by that operation on one of
+    the probes: the table is not an over-approximation -/
+def tight : Bool :=
+  Kind.all.all fun k => (effect k).touched.all fun x =>
+    probes.any fun p => p.2.kind == k && (changed p.1 (step Cfg.fixed toyProbe 2 p.1 p.2).1).contains x
+
+end Tight
 
 /-! ## the dependency table of the derived fields, read off the invariants -/
 section Deps
